@@ -26,22 +26,29 @@ def prop(pid, rules, explanation, decided, declined, assumptions=()):
 
 
 prop('C09',
-     [('R05', cf.r05_status_ownership), ('R06', cf.r06_round_monotone), ('R02', cf.r02_elect_sites)],
+     [('R05', cf.r05_status_ownership), ('R06', cf.r06_round_monotone), ('R02', cf.r02_elect_sites), ('R03', bt.r03_batch_cap)],
      'Static analysis of /repo source. Status fields are written only inside Candidate; every elect/defeat/'
      'unpend/unelect receiver is drawn (candidate-derivation analysis through the rule-local helpers) from the '
      'status set the transition starts from; unelect only in QPQ on elected candidates; E.round only '
      'initialised and incremented; every elect site is justified by a quota test, a seat guard or a pending '
      'receiver. ' + NOT_BEHAVIOUR,
      ['status ownership and transition direction (R05)', 'round numbers only increase (R06)',
-      'fill-remaining elections are seat-guarded (R02)'],
+      'fill-remaining elections are seat-guarded (R02)', 'batch exclusions are capped (R03)'],
      ['staleness of a candidate list between its construction and its use (flow-insensitive provenance)',
       '"elected never exceed seats" for simultaneous quota elections (arithmetic)'])
 
 prop('C01',
-     [('R01', cf.r01_total_sweep), ('R02', cf.r02_elect_sites), ('R03', bt.r03_batch_cap), ('R04', lp.r04_loops), ('R05', cf.r05_status_ownership)],
-     'Static analysis of /repo source over the count() of every registered rule class. ' + NOT_BEHAVIOUR,
+     [('R01', cf.r01_total_sweep), ('R02', cf.r02_elect_sites), ('R03', bt.r03_batch_cap), ('R04', lp.r04_loops), ('R05', cf.r05_status_ownership),
+      ('R38', rr.r38_first_and_last_action)],
+     'Static analysis of /repo source over the count() of every registered rule class (CFG path rules with a small '
+     'path-sensitive fact domain, candidate-derivation dataflow): every path to the end of count() completes a total '
+     'elect-or-defeat sweep; every elect site is justified by a quota test, a seat guard or a pending receiver; every batch '
+     'exclusion is capped by hopefuls - seats left and names nobody twice; every while-loop has a variant (ballot walk, '
+     'main-loop progress, decreasing Meek surplus, QPQ restart measure); only hopefuls/pendings receive actions; '
+     'Election.count runs postCheck after the end action. ' + NOT_BEHAVIOUR,
      ['when count() returns nobody is hopeful (R01)', 'nobody elected without quota or seat guard (R02)',
-      'only hopefuls/pendings are elected or defeated; withdrawn never (R05)'],
+      'batch exclusions capped and duplicate-free (R03)', 'every loop has a variant; every main-loop iteration makes progress (R04)',
+      'only hopefuls/pendings are elected or defeated; withdrawn never (R05)', 'postCheck after the end action (R38)'],
      ['"exactly min(seats, electable) winners" as a number'])
 
 prop('C20',
